@@ -485,6 +485,10 @@ package collection
 //@   ensures [one-second-wheel] calls(NewTimingWheel) == 1 && arg(NewTimingWheel, 0) == 1000000000 && arg(NewTimingWheel, 1) == 300
 //@   ensures [wheel-error-returned] ret(NewTimingWheel, 1) != nil ==> result0 == nil && result1 == ret(NewTimingWheel, 1)
 //@   ensures [built] ret(NewTimingWheel, 1) == nil ==> result1 == nil && result0 != nil && result0.timingWheel == ret(NewTimingWheel, 0) && result0.expire == expire && result0.data != nil && captured(arg(NewTimingWheel, 2), ptr(Cache)) != nil
+// every cache has a single-flight barrier of its own, made in this call: "concurrent Takes of one key in ONE cache run
+// one fetch" - two caches that happen to use the same key string never share a flight (the second cache's Take must
+// run its own fetch and cache its own result)
+//@   ensures [own-single-flight-barrier] ret(NewTimingWheel, 1) == nil ==> calls(syncx.NewSingleFlight) == 1 && result0.barrier == ret(syncx.NewSingleFlight)
 //@ func NewCache$1
 //@   prop C17
 //@   opaque Del
